@@ -92,7 +92,7 @@ def load_corpus(pid):
 
 
 def run_profile(pid, props_file, pinned, gen_cls, profile, known_fn, rule, n_quick, n_thorough, tier, seed,
-                size=(2, 4), depth=2, level_note=""):
+                size=(2, 4), depth=2, level_note="", extra=None):
     """generic check for a property decided against the reference semantics.
     known_fn(result_record) -> None | "<finding id> <what fails>" classifies a
     disagreement as a known finding."""
@@ -144,8 +144,10 @@ def run_profile(pid, props_file, pinned, gen_cls, profile, known_fn, rule, n_qui
             "others": len(bad) - 1, "ast": r["ast"]})
         chk.log(f"{len(bad)} programs disagree with the reference semantics; smallest:\n{r['src']}"
                 f"reference: {r['kind']} {r['body']} {r['out']!r}\nimpl: {r['impl']}")
+    if extra is not None:
+        extra(chk, tier)
     broken = [o for o in chk.obligations if not o[1]]
-    if broken and not bad:
+    if broken and not bad and not chk.violations:
         chk.violation("obligation", {"kind": "obligation", "broken": [o[0] for o in broken]}, no_input=True)
     if n and dist["rejected-by-compiler"] * 4 > len(res):
         chk.notes.append("more than a quarter of the generated programs were rejected by the compiler: generator needs attention")
